@@ -624,6 +624,42 @@ fn replay_dn_ops(input: &Value) -> R {
 	Ok((ok, json!({"iter": got, "notes": notes}), json!({"iter": want})))
 }
 
+/// Bounded search (labelled bounded, never counted as proof): all push/remove histories up to
+/// `max_len` over `types` attribute types and two values, looking for one on which the real
+/// DistinguishedName disagrees with the association-list model.  Used only to attach a concrete
+/// failing input to an obligation that Verus stopped discharging.
+fn replay_dn_search(input: &Value) -> R {
+	let max_len = input.get("max_len").and_then(|x| x.as_u64()).unwrap_or(5) as usize;
+	let nt = input.get("types").and_then(|x| x.as_u64()).unwrap_or(3) as usize;
+	let tys = ["CN", "O", "C", "OU"];
+	let mut ops: Vec<Value> = vec![];
+	for t in 0..nt.min(4) {
+		ops.push(json!(["push", tys[t], "a"]));
+		ops.push(json!(["push", tys[t], "b"]));
+		ops.push(json!(["remove", tys[t]]));
+	}
+	let mut tried = 0u64;
+	let mut stack: std::collections::VecDeque<Vec<usize>> = std::collections::VecDeque::from(vec![vec![]]);
+	while let Some(seq) = stack.pop_front() {
+		if !seq.is_empty() {
+			tried += 1;
+			let hist: Vec<Value> = seq.iter().map(|i| ops[*i].clone()).collect();
+			let (ok, obs, want) = replay_dn_ops(&json!({"ops": hist}))?;
+			if !ok {
+				return Ok((false, json!({"found_input": {"ops": hist}, "observed": obs, "histories_tried": tried}), want));
+			}
+		}
+		if seq.len() < max_len {
+			for i in 0..ops.len() {
+				let mut n = seq.clone();
+				n.push(i);
+				stack.push_back(n);
+			}
+		}
+	}
+	Ok((true, json!({"histories_tried": tried, "max_len": max_len, "types": nt}), json!("model agreement on every history")))
+}
+
 fn replay_string(input: &Value) -> R {
 	let cps: Vec<u32> = match input.get("cps").and_then(|x| x.as_array()) {
 		Some(a) => a.iter().filter_map(|x| x.as_u64()).map(|x| x as u32).collect(),
@@ -713,6 +749,7 @@ fn main() {
 		"crl" => replay_crl(&input),
 		"panic_site" => replay_panic_site(&input),
 		"dn_ops" => replay_dn_ops(&input),
+		"dn_search" => replay_dn_search(&input),
 		"string" => replay_string(&input),
 		"cidr" => replay_cidr(&input),
 		"csr_refusal" => replay_csr_refusal(&input),
